@@ -118,6 +118,18 @@ func C19(tier rt.Tier) int {
 							}
 						}
 					}
+					// a tree object that was used before (computed over other leaves, then loaded) must answer like a fresh one
+					var used util.MerkleTree
+					other := make([]util.Hashable, 0, n+3)
+					for i := n + 1; i >= 0; i-- { // other count, other order, partly other leaves
+						other = append(other, leaf(leaves[(i+7)%len(leaves)]))
+					}
+					used.ComputeTree(other)
+					_ = used.GetPath(other[0])
+					if err := used.SetTree(n, append([]string(nil), tree...)); err != nil {
+						report(n, "SetTree on a used tree object failed: "+err.Error())
+						return
+					}
 					le, lp, ln := 0, 0, 0
 					for i := 0; i < n; i++ {
 						p := mt.GetPathByIndex(i)
@@ -133,6 +145,14 @@ func C19(tier rt.Tier) int {
 						q := mt.GetPath(leaf(leaves[i]))
 						if fmt.Sprint(q.Nodes) != fmt.Sprint(p.Nodes) || q.LeafIndex != i {
 							report(n, fmt.Sprintf("GetPath(leaf %d) differs from GetPathByIndex(%d)", i, i))
+							return
+						}
+						if u := used.GetPath(leaf(leaves[i])); fmt.Sprint(u.Nodes) != fmt.Sprint(p.Nodes) || u.LeafIndex != i || !used.VerifyPath(leaf(leaves[i]), u) {
+							report(n, fmt.Sprintf("a tree object that had been used for another tree and was then loaded with SetTree gives a wrong path for leaf %d (index %d, %d nodes)", i, u.LeafIndex, len(u.Nodes)))
+							return
+						}
+						if u := mt2.GetPath(leaf(leaves[i])); fmt.Sprint(u.Nodes) != fmt.Sprint(p.Nodes) || u.LeafIndex != i {
+							report(n, fmt.Sprintf("reloaded tree gives a different path by leaf lookup for leaf %d", i))
 							return
 						}
 						p2 := mt2.GetPathByIndex(i)
@@ -187,7 +207,7 @@ func C19(tier rt.Tier) int {
 	rep.Set("traces_validated_against_impl", paths)
 	rep.Set("distinct_nontrivial", paths)
 	rep.Set("negative_verifications", negatives)
-	rep.Set("rule", fmt.Sprintf("every leaf count n = 1..%d with distinct leaf hashes; every leaf index: path by index and by leaf lookup, verification by VerifyMerklePath and VerifyPath against a root that must equal an independent recursive reference root (own SHA3); the same path offered with every other leaf hash of the tree for n <= %d (structured neighbours, first/last/middle for larger n), with a foreign hash, with the sibling hash and with the root; export/import via GetTree/SetTree incl. rejected wrong leaf counts; 'states' = tree sizes, 'transitions' = (n, index) pairs", maxN, allPairs))
+	rep.Set("rule", fmt.Sprintf("every leaf count n = 1..%d with distinct leaf hashes; every leaf index: path by index and by leaf lookup, verification by VerifyMerklePath and VerifyPath against a root that must equal an independent recursive reference root (own SHA3); the same path offered with every other leaf hash of the tree for n <= %d (structured neighbours, first/last/middle for larger n), with a foreign hash, with the sibling hash and with the root; export/import via GetTree/SetTree incl. rejected wrong leaf counts, also into a tree object that was used for another tree before; 'states' = tree sizes, 'transitions' = (n, index) pairs", maxN, allPairs))
 	rep.Sample(map[string]any{"n": 5, "index": 4, "note": "odd level: last node paired with itself"})
 	rep.Sample(map[string]any{"n": 1, "index": 0})
 	return rep.Finish()
